@@ -92,6 +92,10 @@ class FilterExpression(Expression):
 
         if isinstance(expression, PrefixExpression):
             operand = self._canonical_string(expression.right, PRECEDENCE_PREFIX)
+            if isinstance(expression.right, (ComparisonExpression, PrefixExpression)):
+                # `!` binds more tightly than comparison operators and can't be
+                # doubled without parentheses.
+                operand = f"({operand})"
             expr = f"!{operand}"
             return f"({expr})" if parent_precedence > PRECEDENCE_PREFIX else expr
 
@@ -171,6 +175,8 @@ class PrefixExpression(Expression):
         super().__init__(token)
 
     def __str__(self) -> str:
+        if isinstance(self.right, (ComparisonExpression, PrefixExpression)):
+            return f"{self.operator}({self.right})"
         return f"{self.operator}{self.right}"
 
     def __eq__(self, other: object) -> bool:
